@@ -300,6 +300,9 @@ func cmdCheck(prop, tier string) int {
 		}
 	}
 	assumptions = append(assumptions, extraAssumptions(prop)...)
+	for _, w := range x.warnings {
+		assumptions = append(assumptions, "binding: "+w)
+	}
 
 	ev := map[string]any{
 		"property_id": prop,
